@@ -1058,6 +1058,19 @@ struct json_object *json_tokener_parse_ex(struct json_tokener *tok, const char *
 				int64_t num64;
 				uint64_t numuint64;
 				double numd;
+				if (tok->flags & JSON_TOKENER_STRICT)
+				{
+					/* no superfluous leading zeros: "0" or "-0" may only be
+					 * followed by '.', 'e', 'E' or the end of the number */
+					const char *digits = tok->pb->buf;
+					if (digits[0] == '-')
+						digits++;
+					if (digits[0] == '0' && digits[1] >= '0' && digits[1] <= '9')
+					{
+						tok->err = json_tokener_error_parse_number;
+						goto out;
+					}
+				}
 				if (!tok->is_double && tok->pb->buf[0] == '-' &&
 				    json_parse_int64(tok->pb->buf, &num64) == 0)
 				{
@@ -1077,12 +1090,6 @@ struct json_object *json_tokener_parse_ex(struct json_tokener *tok, const char *
 				         json_parse_uint64(tok->pb->buf, &numuint64) == 0)
 				{
 					if (errno == ERANGE && (tok->flags & JSON_TOKENER_STRICT))
-					{
-						tok->err = json_tokener_error_parse_number;
-						goto out;
-					}
-					if (numuint64 && tok->pb->buf[0] == '0' &&
-					    (tok->flags & JSON_TOKENER_STRICT))
 					{
 						tok->err = json_tokener_error_parse_number;
 						goto out;
